@@ -5,6 +5,8 @@ import (
 	"os"
 	"runtime/pprof"
 	"time"
+
+	pb "go.etcd.io/etcd/raft/v3/raftpb"
 )
 
 // selfBench: single-process search of a box with a CPU profile (development aid).
@@ -111,7 +113,10 @@ func selfBench(boxID string, limit int, prof string) {
 // scenario runs a hand-written schedule (development aid):
 //
 //	C<n> campaign  P<n> propose  I<n> isolate (I0 heal)  K<n> crash  R<n> restart  H<n> heartbeat
+//	S<n> compact (snapshot at applied + discard the log up to it)
 //	D deliver oldest   X drop oldest   Q deliver oldest until the pool is empty
+//	Y delay oldest   V duplicate the oldest MsgSnap (else the oldest message), the copy is delayed
+//	Z release the oldest delayed message
 func scenario(cfgName string, toks []string) {
 	cfg := cfgPlain(3, false)
 	switch cfgName {
@@ -120,7 +125,7 @@ func scenario(cfgName string, toks []string) {
 	case "pvcq":
 		cfg = cfgPVCQ(3, false)
 	}
-	bud := Budget{MaxTerm: 9, Proposals: 9, Drops: 99, Dups: 9, Crashes: 9, Heartbeats: 9, Compacts: 9, Expires: 9}
+	bud := Budget{MaxTerm: 9, Proposals: 9, Drops: 99, Dups: 9, Crashes: 9, Heartbeats: 9, Compacts: 9, Expires: 9, Delays: 9}
 	c := newCluster(newSim(false), &cfg, &bud, true)
 	step := func(e Event) bool {
 		desc := c.describe(e)
@@ -157,6 +162,27 @@ func scenario(cfgName string, toks []string) {
 			step(Event{K: evRestart, N: n})
 		case 'H':
 			step(Event{K: evHeartbeat, N: n})
+		case 'S':
+			step(Event{K: evCompact, N: n})
+		case 'Y':
+			if len(c.pool) > 0 {
+				step(Event{K: evDelay, A: c.pool[0].seq})
+			}
+		case 'V':
+			if len(c.pool) > 0 {
+				seq := c.pool[0].seq
+				for _, p := range c.pool {
+					if p.m.Type == pb.MsgSnap {
+						seq = p.seq
+						break
+					}
+				}
+				step(Event{K: evDupDelay, A: seq})
+			}
+		case 'Z':
+			if len(c.held) > 0 {
+				step(Event{K: evRelease, A: c.held[0].seq})
+			}
 		case 'D':
 			if len(c.pool) > 0 {
 				step(Event{K: evDeliver, A: c.pool[0].seq})
